@@ -546,6 +546,18 @@ def backtest_universe_case(item):
     if shape == "undeclared":
         s = bt.Strategy("r", stack)
         exp = {"r": ["a", "b", "c", "d"]}
+    elif shape in ("empty_list", "empty_dict"):
+        # an explicitly empty collection declares nothing
+        s = bt.Strategy("r", stack, [] if shape == "empty_list" else {})
+        exp = {"r": ["a", "b", "c", "d"]}
+    elif shape == "settings":
+        # a three-level template some of whose nodes were switched to the other position mode before:
+        # the backtest's own settings reach every node of its copy
+        leaf = bt.Strategy("leaf", [A.RunWeekly(), A.SelectAll(), A.WeighEqually(), A.Rebalance()], [bt.Security("a"), "b"])
+        mid = bt.Strategy("mid", [A.RunWeekly(), A.WeighSpecified(leaf=0.5, d=0.25), A.Rebalance()], [leaf, bt.Security("d")])
+        s = bt.Strategy("r", [A.RunMonthly(), A.WeighSpecified(mid=0.75), A.Rebalance()], [mid])
+        s.use_integer_positions(not integer)
+        exp = {}
     elif shape == "declared":
         s = bt.Strategy("r", stack, ["a", "c"])
         exp = {"r": ["a", "c"]}
@@ -556,7 +568,8 @@ def backtest_universe_case(item):
         sub = bt.Strategy("s", [A.RunWeekly(), A.SelectAll(), A.WeighEqually(), A.Rebalance()], ["c", "d"])
         s = bt.Strategy("r", [A.RunWeekly(), A.WeighSpecified(s=0.5, a=0.25), A.Rebalance()], [sub, "a"])
         exp = {"r": ["a", "s"], "r>s": ["c", "d"]}
-    b = bt.Backtest(s, data, integer_positions=integer, progress_bar=False)
+    fee_fn = (lambda q, p: abs(q) * 0.01) if shape == "settings" else None
+    b = bt.Backtest(s, data, integer_positions=integer, commissions=fee_fn, progress_bar=False)
     viols = []
     try:
         b.run()
@@ -564,6 +577,14 @@ def backtest_universe_case(item):
         if rt.classify(e) == "guard":
             return ("refused", [], 0)
         return ("crash", [{"rule": "crash", "observed": rt.describe(e)}], 0)
+    if shape == "settings":
+        for n in b.strategy.members:
+            if bool(n.integer_positions) is not bool(integer):
+                viols.append({"rule": "pushed_integer_positions", "expected": {"node": R.node_path(n), "integer_positions": integer, "template_had": not integer}, "observed": bool(n.integer_positions)})
+                break
+            if isinstance(n, bt.core.StrategyBase) and n.commission_fn is not fee_fn:
+                viols.append({"rule": "pushed_commission_fn", "expected": {"node": R.node_path(n), "commission_fn": "the function passed to Backtest"}, "observed": repr(n.commission_fn)[:80]})
+                break
     for n in b.strategy.members:
         if isinstance(n, bt.core.StrategyBase):
             path = R.node_path(n)
@@ -683,7 +704,7 @@ def run(ctx):
                 ctx.mark(("hv", kind, runcheck._key(spec)))
             for v in viols:
                 ctx.violation(dict(v, build=kind, module=MOD, case={"kind": "hedgevariants", "spec": spec}))
-    bu = [(sh, ec, integer) for sh in ("undeclared", "declared", "declared_nodes", "nested") for ec in ("full", "late", "all_nan") for integer in (True, False)]
+    bu = [(sh, ec, integer) for sh in ("undeclared", "empty_list", "empty_dict", "declared", "declared_nodes", "nested", "settings") for ec in ("full", "late", "all_nan") for integer in (True, False)]
     for kind in kinds:
         for item, (status, viols, n) in ctx.run(kind, MOD, "backtest_universe_case", bu, chunksize=2):
             ctx.add(states=1, transitions=1, traces_validated_against_impl=1, evaluations=1)
